@@ -70,8 +70,10 @@ def run(M, rep, tier, only=None):
 
     # ------------------------------------------------------------------ R1 / R2 finders
     sigs = {}
+    from .common import tree_finders
+    tf = tree_finders(ctx)
     for q, kind in FINDERS:
-        f = M.funcs.get(q)
+        f = tf.get(kind)
         key = q.split(":")[-1]
         if f is None:
             rep.bad(R2, key, "required mechanism not found: %s" % q)
@@ -190,6 +192,7 @@ def run(M, rep, tier, only=None):
             repr(diff[0])[:300] if diff else ""), what="%d abstract paths each" % len(a))
 
     # wrappers: limit None (and only None) means unlimited
+    finder_quals = {f_.qual for f_ in tf.values() if f_ is not None}
     for cn, name in (("Section", "find_sections"), ("Source", "find_sources"), ("File", "find_sections"), ("Block", "find_sources")):
         f = ctx.member(cn, name)
         key = "%s.%s" % (cn, name)
@@ -199,7 +202,7 @@ def run(M, rep, tier, only=None):
         bad = None
         n = 0
         for p in ctx.paths(f, cn):
-            calls = [e for e in p.events if e.kind == "ocall" and e.op.startswith("nixio.util.find:_find_")]
+            calls = [e for e in p.events if e.kind == "ocall" and e.op in finder_quals]
             if not calls:
                 if p.normal:
                     bad = (p, "a path does not search at all")
